@@ -20,7 +20,7 @@ def tally(prefix):
         first_ok += bool(tr) and tr[0]["result"].startswith("CAUGHT")
         final_ok += any(t["result"].startswith("CAUGHT") for t in tr)
     return tot, first_ok, final_ok
-r1, r2, r3 = tally("C*-*"), tally("R2-C*-*"), tally("R3-C*-*")
+r1, r2, r3, r4 = tally("C*-*"), tally("R2-C*-*"), tally("R3-C*-*"), tally("R4-C*-*")
 summary = f"""Round 1 (`C??-n`, two changes per property, free choice of defect): {r1[0]} changes, {r1[1]} caught at the
 first trial, {r1[2]} caught after strengthening. Round 2 (`R2-C??-n`, two more per property; the agents were
 asked for defects that need *scale, a long history or an unusual-but-legal input* to manifest, because
@@ -31,8 +31,14 @@ round 1 showed that was where the checks were thin): {r2[0]} changes, {r2[1]} ca
 oracles were only ever asked of engines built in one batch by the default path, so the same oracles are now
 also asked of a Blocker that received the rules one at a time (`Blocker::add_filter`: C01, C04, C06, C13,
 C15), of optimising engines (C01, C02 families), and of engines loaded from serialized bytes (C03, C15, C16,
-C17; C08 with tags enabled before loading). Every miss was a generator-reach problem (sizes, depths, lengths,
-histories, entry points), never an oracle problem; each strengthening widened the generated domain and was followed
+C17; C08 with tags enabled before loading). Round 4 (`R4-C??-n`; defects at the *boundary of the input grammar* -
+rare spellings, empty / repeated / contradictory option values, case, encodings - or depending on hash /
+iteration order): {r4[0]} changes, {r4[1]} caught at the first trial, {r4[2]} caught after strengthening; the
+misses were spellings no generator produced (empty tag, `csp=`, whitespace after `##`, upper-case schemes,
+i32::MIN priorities, regex entries in `domain=`, combining marks in identifiers, `Duration::MAX`), two places
+where an oracle re-used the parser's own reading of a rule (C14 types, C15 directive: both now re-read the
+rule text), and tie cases that were skipped instead of being checked for determinism. Apart from those two oracle weaknesses every miss was a generator-reach problem (sizes, depths,
+lengths, histories, entry points, spellings); each strengthening widened the generated domain and was followed
 by a multi-seed silence run on the unchanged tree.
 
 """
